@@ -31,7 +31,7 @@ SCHEMA_URI = {D2019: "2019-09", D7: "draft-07"}
 def jobs(prop, tier, seed):
     out = []
     q = tier == "quick"
-    for pid in pools.ids("data", tier):
+    for pid in pools.ids("data", tier) + pools.random_ids(seed, 8 if tier == "quick" else 60):
         spec, _ = pools.get("data", pid)
         if any(s.k == "obj" and any(f.fall_back for f in s.a) for s in walk(spec)):
             continue
